@@ -108,7 +108,11 @@ func (c *ClusterNode) RPCSendShard(args *RPCSendShardRequest, reply *RPCSendShar
 		// over from an earlier transfer that was interrupted.
 		flags |= os.O_TRUNC
 	}
-	f, err := os.OpenFile(shardPath, flags, 0644)
+	// The chunks are collected under another name. A transfer that stops half
+	// way must not leave something that looks like a shard: the next start-up
+	// sync of this node would send the torso on, over a complete copy.
+	incomingPath := shardPath + ".incoming"
+	f, err := os.OpenFile(incomingPath, flags, 0644)
 	if err != nil {
 		return fmt.Errorf("could not open shard file: %w", err)
 	}
@@ -123,9 +127,12 @@ func (c *ClusterNode) RPCSendShard(args *RPCSendShardRequest, reply *RPCSendShar
 	// An empty chunk ends the transfer, it is the first one for an empty file
 	if len(args.ChunkData) == 0 {
 		f.Close()
-		checksum, err := FileHash(shardPath)
+		checksum, err := FileHash(incomingPath)
 		if err != nil {
 			return fmt.Errorf("could not compute shard checksum: %w", err)
+		}
+		if err := os.Rename(incomingPath, shardPath); err != nil {
+			return fmt.Errorf("could not put shard file in place: %w", err)
 		}
 		reply.Checksum = checksum
 	}
